@@ -1,7 +1,7 @@
 (* Props/C04.v -- property theorems only: Theorem / exact lemma / Check (pins the statement) / Print Assumptions.
    C04: a banded matrix behaves exactly like the dense matrix with the same band. *)
 From Coq Require Import List Arith ZArith QArith Qcanon Lia Floats.
-From OV Require Import Base.Panic Base.Arith Base.Flat Model.Vector Model.Matrix Model.Banded Inst.QcInst Inst.FloatInst Proofs.Banded Proofs.BandedLU Proofs.BandedTotal Proofs.BandedComplete Proofs.BandedDet Legacy.C04Refuted.
+From OV Require Import Base.Panic Base.Arith Base.Flat Model.Vector Model.Matrix Model.Banded Inst.QcInst Inst.FloatInst Proofs.Banded Proofs.BandedLU Proofs.BandedTotal Proofs.BandedComplete Proofs.BandedDet Proofs.BandedHist Proofs.BandedEdit Legacy.C04Refuted.
 Import ListNotations.
 Local Open Scope nat_scope.
 
@@ -77,6 +77,51 @@ Proof.
       vm_compute; reflexivity.
   - split; [intros E; discriminate E|]. vm_compute. reflexivity.
 Qed.
+
+(* ---- editing operations on the dense twin: Banded::new, index_mut, fill_band ---- *)
+Theorem band_edit_dense : forall (A : Arith) (B : banded A) (x : A),
+  (forall n m1 m2 i j, i < n -> j < n ->
+     dense_entry (band_new n m1 m2 x) i j = if in_band m1 m2 i j then x else zero) /\
+  (wfB B -> forall i j, i < bn B -> j < bn B -> in_band (bm1 B) (bm2 B) i j = true ->
+     exists B', band_set B i j x = Ok B' /\ wfB B' /\ bn B' = bn B /\ bm1 B' = bm1 B /\ bm2 B' = bm2 B /\
+       forall i' j', i' < bn B -> j' < bn B ->
+         dense_entry B' i' j' = if (i' =? i) && (j' =? j) then x else dense_entry B i' j') /\
+  (wfB B -> forall b : Z,
+     if ((b <? - Z.of_nat (bm1 B))%Z || (Z.of_nat (bm2 B) <? b)%Z) then band_fill_band B b x = Panic Guard
+     else exists B', band_fill_band B b x = Ok B' /\ wfB B' /\ bn B' = bn B /\ bm1 B' = bm1 B /\ bm2 B' = bm2 B /\
+       forall i j, i < bn B -> j < bn B ->
+         dense_entry B' i j =
+           if in_band (bm1 B) (bm2 B) i j && (Z.of_nat j - Z.of_nat i =? b)%Z then x else dense_entry B i j).
+Proof.
+  intros A B x. split; [intros n m1 m2 i j; apply band_new_dense|]. split.
+  - intros Hwf i j. now apply band_set_dense.
+  - intros Hwf b. now apply band_fill_band_dense.
+Qed.
+Check band_edit_dense : forall (A : Arith) (B : banded A) (x : A),
+  (forall n m1 m2 i j, i < n -> j < n ->
+     dense_entry (band_new n m1 m2 x) i j = if in_band m1 m2 i j then x else zero) /\
+  (wfB B -> forall i j, i < bn B -> j < bn B -> in_band (bm1 B) (bm2 B) i j = true ->
+     exists B', band_set B i j x = Ok B' /\ wfB B' /\ bn B' = bn B /\ bm1 B' = bm1 B /\ bm2 B' = bm2 B /\
+       forall i' j', i' < bn B -> j' < bn B ->
+         dense_entry B' i' j' = if (i' =? i) && (j' =? j) then x else dense_entry B i' j') /\
+  (wfB B -> forall b : Z,
+     if ((b <? - Z.of_nat (bm1 B))%Z || (Z.of_nat (bm2 B) <? b)%Z) then band_fill_band B b x = Panic Guard
+     else exists B', band_fill_band B b x = Ok B' /\ wfB B' /\ bn B' = bn B /\ bm1 B' = bm1 B /\ bm2 B' = bm2 B /\
+       forall i j, i < bn B -> j < bn B ->
+         dense_entry B' i j =
+           if in_band (bm1 B) (bm2 B) i j && (Z.of_nat j - Z.of_nat i =? b)%Z then x else dense_entry B i j).
+Print Assumptions band_edit_dense.
+Example band_edit_dense_nonvacuous : wfB ex_B /\ 1 < bn ex_B /\ 2 < bn ex_B /\ in_band (bm1 ex_B) (bm2 ex_B) 1 2 = true.
+Proof. repeat split; cbn; lia. Qed.
+
+(* ---- the hypothesis wfB of the theorems above holds of every matrix the public API can build: it holds of
+   Banded::new and every operation (a panicking one leaves the matrix as it was) preserves it ---- *)
+Theorem band_history_wf : forall (A : Arith) (n m1 m2 : nat) (x : A) (ops : list (bop A)),
+  wfB (brun_state (band_new n m1 m2 x) ops).
+Proof. intros A n m1 m2 x ops. exact (band_history_wf_lemma ops _ (band_new_wf n m1 m2 x)). Qed.
+Check band_history_wf : forall (A : Arith) (n m1 m2 : nat) (x : A) (ops : list (bop A)),
+  wfB (brun_state (band_new n m1 m2 x) ops).
+Print Assumptions band_history_wf.
 
 (* ---- arithmetic commutes with the dense twin (by-value operators) ---- *)
 Theorem band_arith_dense : forall (A : Arith), RingLaws A -> forall (B C : banded A) (s : A),
